@@ -250,7 +250,7 @@ CHECKS["C11"] = {
 CLIP = [G + "cli_proc.go"] + CLI
 CHECKS["C10"] = {
     "technique": "real fMP4 stream/track processors, time converter and routine pool as engine threads on harness-built fragments with symbolic base times, durations and PTS offsets",
-    "bounds": {"quick": {"tracks": "H264 video + optional Opus audio at 48000/44100", "segments x fragments x samples": "1 x 1..2 x 1..2", "base times": "[0, 2^40]", "durations": "[0, 2^20] / [0, 2^16]", "PTS offsets": "[-2^16, 2^16]",
+    "bounds": {"quick": {"tracks": "H264 video + optional Opus audio at 48000/44100; run.cli.fmp4.codecs: H265 / VP9 / AV1 video + optional MPEG-4 audio", "segments x fragments x samples": "1 x 1..2 x 1..2", "base times": "[0, 2^40]", "durations": "[0, 2^20] / [0, 2^16]", "PTS offsets": "[-2^16, 2^16]",
                          "PROGRAM-DATE-TIME": "present or not per segment"},
                "thorough": {"segments x fragments x samples": "1..2 x 1..2 x 1..2"}},
     "assumptions": ["fmp4 Init/Part Marshal+Unmarshal are mutually inverse (symbolically an identity on the value; natively the real serialisation)", "PartSample.GetH264 returns the payload as one NAL unit (symbolic build)",
@@ -261,6 +261,9 @@ CHECKS["C10"] = {
              {"name": "run.cli.fmp4.abstime", "files": CLIP, "fn": "VerifH_C10_fmp4", "workers": 16, "params": {"DATETIME": 1}, "params_quick": {"MAXSEGS": 1, "MAXFRAGS": 1, "MAXSAMPLES": 2, "DTBASEBITS": 24},
               "params_thorough": {"MAXSEGS": 2, "MAXFRAGS": 1, "MAXSAMPLES": 2, "DTBASEBITS": 32}, "reach": ["ran"], "budget_quick": 600, "budget_thorough": 7200, "qtimeout": 60000}],
 }
+CHECKS["C10"]["runs"].append({"name": "run.cli.fmp4.codecs", "files": CLIP, "fn": "VerifH_C10_fmp4", "workers": 16, "params": {"DATETIME": 0, "CODECS": 1},
+                              "params_quick": {"MAXSEGS": 1, "MAXFRAGS": 2, "MAXSAMPLES": 2}, "params_thorough": {"MAXSEGS": 2, "MAXFRAGS": 2, "MAXSAMPLES": 2},
+                              "reach": ["ran"], "budget_quick": 600, "budget_thorough": 7200, "qtimeout": 60000})
 CHECKS["C13"] = {
     "technique": "the same real client stages on well-formed-but-unexpected parse results (every fMP4 codec kind, time scale 0, track-id permutations, empty fragments, absurd counts and values); engine panic / deadlock checks are the assertion",
     "bounds": {"quick": {"focus groups": "codec kinds (8) alone or beside video; time scales {90000,0,1,2^32-1}; init/fragment track ids in 1..4; 10..11 tracks; 0..2 fragments with/without tracks and samples",
@@ -304,14 +307,17 @@ def c09run(name, tracks, kq, kt, **extra):
 CHECKS["C09"] = {
     "technique": "co-simulation: K symbolic writes into the real fMP4 Muxer, then the whole real Client runs as engine threads with its HTTP requests answered by the real Muxer.Handle; "
                  "lemma: checkSupport accepts every codec string codecparams.Marshal produces for the codecs Start accepts",
-    "bounds": {"quick": {"cosim": "fMP4, H264 video, K=5 writes (IDR / non-IDR / IDR with changed PPS), symbolic DTS deltas and SegmentMinDuration, client attached after the writes",
+    "bounds": {"quick": {"cosim": "fMP4, H264 video (and AV1 video, K=4), K=5 writes (IDR / non-IDR / IDR with changed PPS), symbolic DTS deltas and SegmentMinDuration, client attached after the writes",
                          "lemma.codecs": "H264, H265, AV1, VP9 (profile 0..3, depth 8..12), MPEG-4 audio (object type 1..42), Opus"},
-               "thorough": {"cosim": "K=6; video + audio rendition K=6; AbsoluteTime run with symbolic origin and tabled frame durations"}},
+               "thorough": {"cosim": "K=6; H265 and VP9 video K=5; video + audio rendition K=6; AbsoluteTime run with symbolic origin and tabled frame durations"}},
     "assumptions": MUX_STUBS + CHECKS["C10"]["assumptions"] + ["the two wire formats (playlist text, fMP4 bytes) are lossless transports (C14 + mediacommon)"],
     "outside": ["MPEG-TS and Low-Latency variants end to end", "client attached while the writer is running", "real HTTP and pacing"],
     "runs": [
         {"name": "lemma.codecs", "files": C09F, "fn": "VerifH_C09_codecs", "workers": 8, "reach": ["marshalled"]},
         c09run("cosim.fmp4.video", 0, 5, 6),
+        c09run("cosim.fmp4.av1", 0, 4, 5, VCODEC=3, VKINDS=3),
+        dict(c09run("cosim.fmp4.h265", 0, 5, 5, VCODEC=1, VKINDS=3), thorough_only=True),
+        dict(c09run("cosim.fmp4.vp9", 0, 5, 5, VCODEC=2, VKINDS=3), thorough_only=True),
         dict(c09run("cosim.fmp4.video+audio", 1, 6, 6), thorough_only=True),
         dict(c09run("cosim.fmp4.abstime", 0, 5, 5, ABSTIME=1, CONCRETE=2, SYMSEGMIN=0, SEGMIN_MS=30, VKINDS=2), thorough_only=True, qtimeout=120000),
     ],
